@@ -2,8 +2,6 @@ package conversion
 
 import (
 	"strings"
-
-	"github.com/flant/shell-operator/pkg/utils/string_helper"
 )
 
 type ChainStorage struct {
@@ -191,21 +189,9 @@ func (c Chain) RulesWithSimilarFromVersion(rule Rule) []Rule {
 // NextRules finds all base paths in BaseFromToIndex that starts from an input version.
 func (c Chain) NextRules(fromVer string) []Rule {
 	rules := []Rule{}
-	shortVer := string_helper.TrimGroup(fromVer)
 	for k := range c.BaseFromToIndex {
-		//
-		if k == fromVer {
-			for toVer := range c.BaseFromToIndex[k] {
-				rules = append(rules, Rule{
-					FromVersion: k,
-					ToVersion:   toVer,
-				})
-			}
-			continue
-		}
-
-		idxFrom := strings.Index(k, shortVer)
-		if idxFrom == -1 {
+		// A base path continues fromVer only if it starts from the same version, with or without a group.
+		if !VersionsMatched(k, fromVer) {
 			continue
 		}
 		for toVer := range c.BaseFromToIndex[k] {
